@@ -133,6 +133,13 @@ def cases(rng, tier):
                 if private and form in ("object", "pem", "jwk") and not kind.startswith("oct"):
                     for order in ("pem-first", "pubkey-first", "der-first", "private-pem-first"):
                         out.append({"op": "key", "kind": kind, "form": form, "private": private, "options": None, "order": order})
+    # oct keys given as text: the key is the UTF-8 octets of the text, whatever its first and last characters are
+    for t in ["secret", "secret\n", " secret", "\tsecret\r\n", "se cret", "\x0bsecret\x0c", "\ufeffsecret", "sécret ", "\x00secret\x00", " "]:
+        out.append({"op": "oct_str", "text": t})
+    # private JWKs as other software writes them (all RFC 7517 common members; RSA with the RFC 7518 §6.3.2.7 "oth" member): public exports
+    for kind in ("RSA-2048", "EC-P-256", "OKP-Ed25519"):
+        for oth in ((False, True) if kind.startswith("RSA") else (False,)):
+            out.append({"op": "public_export", "kind": kind, "oth": oth})
     out.append({"op": "keyset", "kinds": ["RSA-2048", "EC-P-256-lz", "OKP-Ed25519", "oct-16"]})
     out.append({"op": "keyset", "kinds": ["EC-P-521-lz", "OKP-X25519"]})
     return out
@@ -202,6 +209,19 @@ def impl(c):
         f = getattr(ec_key, "_coordinate_to_base64", None)
         bits = {"P-256": 256, "P-384": 384, "P-521": 521, "secp256k1": 256}[c["crv"]]
         return {"out": (f(int(c["n"]), bits) if f else int_to_base64(int(c["n"]))).encode().hex()}
+    if op == "oct_str":
+        key = OctKey.import_key(c["text"])
+        kb = OctKey.import_key(c["text"].encode("utf-8"))
+        return {"k": key.as_dict(is_private=True)["k"], "thumbprint": key.thumbprint(), "same_as_bytes": key.get_op_key("sign") == kb.get_op_key("sign"),
+                "json_k": json.loads(key.as_json(is_private=True))["k"]}
+    if op == "public_export":
+        j = dict(ref_jwk(make_key(c["kind"], rng), True), use="sig", alg="X", key_ops=["sign"], x5t="AAAA", ext=True, kid="k")
+        if c["oth"]:
+            j["oth"] = [{"r": "Aw", "d": "BQ", "t": "Bw"}]
+        key = JsonWebKey.import_key(json.loads(json.dumps(j)))
+        ks = KeySet([key])
+        return {"exports": {"as_dict": sorted(key.as_dict()), "as_json": sorted(json.loads(key.as_json())), "keyset.as_dict": sorted(ks.as_dict()["keys"][0]),
+                            "keyset.as_json": sorted(json.loads(ks.as_json())["keys"][0])}}
     if op == "keyset":
         ks = KeySet([import_in_form(make_key(k, rng), "object", True, None) for k in c["kinds"]])
         pub = ks.as_dict()
@@ -322,6 +342,18 @@ def oracle(c, out):
         dec = b64d(bytes.fromhex(out["out"]).decode())
         if len(dec) != c["len"] or int.from_bytes(dec, "big") != int(c["n"]):
             bad(f"EC member encoded on {len(dec)} octets instead of the full {c['len']}", kind="ec-length", crv=c["crv"])
+    elif op == "oct_str":
+        raw = c["text"].encode("utf-8")
+        want = R.b64u(raw).decode()
+        if out["k"] != want or out["json_k"] != want or not out["same_as_bytes"]:
+            bad(f"oct key imported from the text {c['text']!r}: k is {out['k']!r}, the raw key octets encode as {want!r}", kind="member-encoding", member="k", kty="oct", form="str")
+        elif out["thumbprint"] != ref_thumbprint({"kty": "oct", "k": want}):
+            bad(f"oct key imported from the text {c['text']!r}: thumbprint differs from the independent RFC 7638 value", kind="thumbprint", kty="oct", form="str")
+    elif op == "public_export":
+        for name, members in out["exports"].items():
+            leak = PRIVATE_ONLY & set(members)
+            if leak:
+                bad(f"public export ({name}) of a private {c['kind']} JWK contains private members {sorted(leak)}", kind="private-leak", where=name); break
     elif op == "keyset":
         leak = PRIVATE_ONLY & set(out["public_members"])
         kinds = c["kinds"]
